@@ -220,7 +220,11 @@ func visitInstr(fr *frame, instr ssa.Instruction) continuation {
 		i.chanSend(ch, fr.get(instr.X))
 
 	case *ssa.Store:
-		store(mustDeref(instr.Addr.Type()), fr.get(instr.Addr).(*value), fr.get(instr.Val))
+		addr := fr.get(instr.Addr)
+		if sp, ok := addr.(symElemPtr); ok {
+			addr = &sp.arr[i.concIndex(sp.idx, len(sp.arr))]
+		}
+		store(mustDeref(instr.Addr.Type()), addr.(*value), fr.get(instr.Val))
 
 	case *ssa.If:
 		succ := 1
@@ -303,7 +307,13 @@ func visitInstr(fr *frame, instr ssa.Instruction) continuation {
 			fr.env[instr] = &x[i.concIndex(idx, len(x))]
 		case *value: // *array
 			a := (*x).(array)
-			fr.env[instr] = &a[i.concIndex(idx, len(a))]
+			if sx, isSym := idx.(*sym); isSym && len(a) >= 16 && allConcreteInts(a) {
+				// address of an element of a constant table at a symbolic index: keep it lazy,
+				// a load through it becomes an ite chain instead of a len(a)-way fork
+				fr.env[instr] = symElemPtr{arr: a, idx: sx}
+			} else {
+				fr.env[instr] = &a[i.concIndex(idx, len(a))]
+			}
 		default:
 			panic(fmt.Sprintf("unexpected x type in IndexAddr: %T", x))
 		}
